@@ -4,6 +4,7 @@ import (
 	"bytes"
 	"fmt"
 	"strings"
+	"time"
 
 	"rcproxy/core/vsys"
 	"rcproxy/core/zz_verif/world"
@@ -461,6 +462,38 @@ func c07Scenarios(tier string) []*world.Scenario {
 		sc.CoalesceAll = true
 		out = append(out, sc)
 	}
+	// another client left (FIN / RST) with a split request unanswered; its request objects are recycled and this client's
+	// split request is the next user; the neighbour's late fragment replies arrive before this request's own
+	for _, n := range []string{"mget-3nodes", "del-3nodes", "mset-3nodes", "mget-samenode-2"} {
+		for _, rst := range []bool{false, true} {
+			for _, nb := range []string{"mget", "del"} {
+				bd := 2
+				if tier == "thorough" {
+					bd = 4
+				}
+				sc := c07Scenario(fmt.Sprintf("%s+neighbour-%s-left-rst=%v", n, nb, rst), reqs[n], nil, bd)
+				sc.Family = "after-neighbour-left"
+				na1, nb1 := keyWith("nb", 0, 0), keyWith("nb", 1, 0)
+				nr := MGetReq(na1, nb1)
+				if nb == "del" {
+					nr = DelReq(na1, nb1)
+				}
+				ncs := world.ClientSpec{Chunks: []world.Chunk{{Data: nr.Bytes}}, CloseAfter: 1, CloseRST: rst, Reqs: [][]byte{nr.Bytes}, Expect: [][]byte{nil}}
+				sc.Clients = append(sc.Clients, ncs)
+				sc.Clients[0].Chunks[0].Gate = func(w *world.World) bool { return len(w.Clients) > 1 && w.Clients[1].Sock.Closed }
+				sc.ReuseFds = true
+				sc.Reply = func(w *world.World, bc *world.BConn, args [][]byte) ([]byte, int) {
+					if hasKey(args, na1) || hasKey(args, nb1) {
+						return world.DefaultReply(world.Lower(args[0]), args), 1
+					}
+					return nil, 0
+				}
+				sc.Ticks = []time.Duration{time.Millisecond}
+				sc.TickGate = func(w *world.World) bool { return len(w.Clients) > 0 && w.Clients[0].DeliveredChunks() >= 1 }
+				out = append(out, sc)
+			}
+		}
+	}
 	// the "thousands of keys" end of the quantifier: one long list over 3 nodes, all 6 routing orders x arrival orders
 	var keys []string
 	nk := 600
@@ -491,7 +524,7 @@ func init() {
 		Scenarios: c10Scenarios, BudgetQuick: 90, BudgetThorough: 1200,
 		Assumptions: []string{"server_connections = 1 as the property states", "replication inside a replica set is instantaneous in the node model"}})
 	register(&Check{ID: "C07", Level: "model_checking",
-		Rule:      "MGET/DEL/MSET key lists hitting 2-3 fragments on 2-3 nodes (duplicates, absent, empty and CRLF-bearing values, two fragments on one backend connection), followed by a PING; one fragment answered with a redirect first; two fragment replies of one node in one read; ALL routing orders (map-order choice) x ALL arrival orders of the fragment replies (unbounded) and reply segmentations (single cuts) within the bound; plus one 600/3000-key list; oracle: reference reassembly; non-trivial = >= 1 deviation; distinct = observable outcomes",
+		Rule:      "MGET/DEL/MSET key lists hitting 2-3 fragments on 2-3 nodes (duplicates, absent, empty and CRLF-bearing values, two fragments on one backend connection), followed by a PING; one fragment answered with a redirect first; two fragment replies of one node in one read; ALL routing orders (map-order choice) x ALL arrival orders of the fragment replies (unbounded) and reply segmentations (single cuts) within the bound; plus one 600/3000-key list; oracle: reference reassembly; non-trivial = >= 1 deviation; distinct = observable outcomes; plus: another client left (FIN/RST) with a split MGET/DEL unanswered, its request objects are recycled, this client's split request is the next user and the neighbour's late fragment replies arrive first",
 		Scenarios: c07Scenarios, BudgetQuick: 90, BudgetThorough: 1200,
 		Assumptions: []string{"node model returns per-key values that embed the key"}})
 }
